@@ -981,3 +981,52 @@ def run_b21_b22(chk, repo):
                           'order) they no longer line up with the model\'s eta order', line=e.lineno,
                           witness='create_joint_distribution([ETA_1, ETA_3]) and initial individual estimates: the ETA(2) column '
                                   'of the written phi file holds the values of ETA_2 although ETA(2) is ETA_3')
+
+
+def run_b23(chk, repo):
+    """update_source compares the state the control stream was generated from (internals.old_*) with the current one; once
+    `internals.replace(old_x=...)` has refreshed old_x, a comparison with old_x says "unchanged" whatever happened"""
+    B23 = chk.rule('B23', 'nonmem Model.update_source: internals.old_<x> is not read after the statement that refreshes old_<x>',
+                   floor=3)
+    mm = repo.module(f'{NM}.model')
+    cls = mm.classes.get('Model')
+    f = cls.methods.get('update_source') if cls else None
+    if f is None:
+        raise AnalysisError('nonmem Model.update_source not found')
+    cfg = CFG(f.node)
+    refresh = {}
+    for nd in cfg.nodes.values():
+        if nd.ast is None or nd.kind != 'stmt':
+            continue
+        for c in ast.walk(nd.ast):
+            if isinstance(c, ast.Call) and isinstance(c.func, ast.Attribute) and c.func.attr == 'replace':
+                for k in c.keywords:
+                    if k.arg and k.arg.startswith('old_'):
+                        refresh.setdefault(k.arg, []).append(nd)
+    if not refresh:
+        raise AnalysisError('B23: no internals.replace(old_...=...) found in update_source')
+    n = 0
+    for nd in cfg.nodes.values():
+        if nd.ast is None:
+            continue
+        root = nd.ast.test if nd.kind == 'test' and hasattr(nd.ast, 'test') else nd.ast
+        for a in ast.walk(root) if isinstance(root, ast.AST) else []:
+            if isinstance(a, ast.Attribute) and a.attr in refresh and isinstance(a.value, ast.Attribute) \
+                    and a.value.attr == 'internals':
+                n += 1
+                # ... unless the current value was replaced in between (`model = model.replace(statements=new)`): then
+                # old_x is again the state the text was generated from
+                fld = a.attr[len('old_'):]
+                kills = {k_.id for k_ in cfg.nodes.values() if k_.ast is not None and k_.kind == 'stmt' and any(
+                    isinstance(c_, ast.Call) and isinstance(c_.func, ast.Attribute) and c_.func.attr == 'replace'
+                    and any(kw.arg == fld for kw in c_.keywords) for c_ in ast.walk(k_.ast))}
+                stale = [r for r in refresh[a.attr] if r.id != nd.id and nd.id in cfg.reachable(r.id, avoid=kills - {nd.id})]
+                chk.instance(B23, f'update_source: `{unparse(a)}` at line {nd.line} read before it is refreshed: {not stale}')
+                if stale:
+                    chk.violation(B23, mm.rel, f.qualname, f'{unparse(a)} read after {stale[0].text()[:50]}',
+                                  f'`{a.attr}` was already set to the current value: the comparison that uses it is always '
+                                  f'"unchanged"', line=nd.line,
+                                  witness='remove_unused_parameters_and_rvs on a model with an unused theta that is not the last: '
+                                          'the $PK code keeps THETA(3), THETA(4) while $THETA has three records')
+    if n == 0:
+        raise AnalysisError('B23: no read of internals.old_* found in update_source')
